@@ -237,7 +237,18 @@ func (n *lazyNode) equal(o *lazyNode) bool {
 	}
 
 	for idx, val := range n.ary {
-		if !val.equal(o.ary[idx]) {
+		oval := o.ary[idx]
+
+		// A null element is a nil node; it equals only another null.
+		if (val == nil) != (oval == nil) {
+			return false
+		}
+
+		if val == nil {
+			continue
+		}
+
+		if !val.equal(oval) {
 			return false
 		}
 	}
